@@ -188,6 +188,9 @@ class NDArray:
         self.perm = None        # (p, q, n, lo): this int array is p[lo : lo+len] of a permutation p of [0,n) with inverse q
         self.win = None         # (base fn, row offset, column offset): ghost, see getitem
         self.origin = None      # (root fn, row map, column offset): ghost, self[i, k] == root(rowmap(i), k + cofs)
+        self.rowof = None       # (root fn, row index, column offset): ghost of a rank-1 array that is (a column window of) a row
+        self.awin = None        # (G, offsets): ghost, self[i0, i1, ..] == G(i0 + offsets[0], i1 + offsets[1], ..); reductions over an
+        #                         axis with an offset quantify over the base range (no shifted index terms under the quantifier)
 
     @property
     def rank(self):
@@ -198,12 +201,16 @@ class NDArray:
 
     def copy(self):
         r = NDArray(self.shape, self.dtype, self.fn)
-        r.perm, r.win, r.origin = self.perm, self.win, self.origin
+        r.perm, r.win, r.origin, r.awin = self.perm, self.win, self.origin, self.awin
         return r
 
     def row(self, i):
         f, i = self.fn, zi(i)
-        return NDArray(self.shape[1:], self.dtype, lambda k: f(i, k))
+        r = NDArray(self.shape[1:], self.dtype, lambda k: f(i, k))
+        if self.rank == 2:
+            root, rmap, cofs = self.origin if self.origin is not None else (f, (lambda t: t), 0)
+            r.rowof = (root, z3.simplify(zi(rmap(i))), cofs)       # ghost: r[k] == root(row, k + cofs)
+        return r
 
     def __repr__(self):
         return '<ndarray %s %s>' % (self.dtype, 'x'.join(str(s) for s in self.shape))
@@ -433,14 +440,24 @@ def reduce_bool(it, a, axis, which):
     ax = _axis(a, axis)
     if a.rank == 0:
         return _truthy(dt, f())
+
+    def Qw(axis_, extent, body_local, body_base):
+        """quantify over one axis; over the base range when that axis is an offset window (ghost awin)"""
+        off = a.awin[1][axis_] if a.awin is not None else 0
+        if a.awin is None or conc(off) == 0:
+            return Q(extent, body_local)
+        return Q(norm(z3.simplify(zi(off) + zi(extent))), body_base, lo=off)
+    if a.awin is not None:
+        G, offs = a.awin
+        sh = lambda i, ax_: i if conc(offs[ax_]) == 0 else z3.simplify(i + zi(offs[ax_]))
     if a.rank == 1:
-        return scalar_bool(it, Q(a.shape[0], lambda j: _truthy(dt, f(j))))
+        return scalar_bool(it, Qw(0, a.shape[0], lambda j: _truthy(dt, f(j)), lambda t: _truthy(dt, a.awin[0](t)) if a.awin else None))
     n, d = a.shape
     if ax is None:
         return scalar_bool(it, Q(n, lambda i: Q(d, lambda k: _truthy(dt, f(i, k)))))
     if ax == 1:
-        return NDArray((n,), 'bool', lambda i: Q(d, lambda k: _truthy(dt, f(i, k))))
-    return NDArray((d,), 'bool', lambda k: Q(n, lambda i: _truthy(dt, f(i, k))))
+        return NDArray((n,), 'bool', lambda i: Qw(1, d, lambda k: _truthy(dt, f(i, k)), lambda t: _truthy(dt, G(sh(i, 0), t))))
+    return NDArray((d,), 'bool', lambda k: Qw(0, n, lambda i: _truthy(dt, f(i, k)), lambda t: _truthy(dt, G(t, sh(k, 1)))))
 
 
 def _count_terms(ts):
@@ -555,12 +572,15 @@ def mask_info(it, m):
     fact(run, z3.And(cnt >= 0, cnt <= zi(n)))
     body_t = lambda t: z3.And(sel(t) >= 0, sel(t) < zi(n), f(sel(t)), rnk(sel(t)) == t)
     if conc(n) is not None:
-        fact(run, QA(n, lambda t: z3.Implies(t < cnt, body_t(t))))
-        fact(run, QA2(n, lambda a, b: z3.Implies(b < cnt, sel(a) < sel(b))))
+        fs = [QA(n, lambda t: z3.Implies(t < cnt, body_t(t))), QA2(n, lambda a, b: z3.Implies(b < cnt, sel(a) < sel(b)))]
     else:
-        fact(run, QA(cnt, body_t))
-        fact(run, QA2(cnt, lambda a, b: sel(a) < sel(b)))
-    fact(run, QA(n, lambda j: z3.Implies(f(j), z3.And(rnk(j) >= 0, rnk(j) < cnt, sel(rnk(j)) == j))))
+        fs = [QA(cnt, body_t), QA2(cnt, lambda a, b: sel(a) < sel(b))]
+    fs.append(QA(n, lambda j: z3.Implies(f(j), z3.And(rnk(j) >= 0, rnk(j) < cnt, sel(rnk(j)) == j))))
+    tag = 'mask%d' % (len(cache) + 1)
+    for ff in fs:
+        fact(run, ff)
+        if z3.is_expr(ff) and E._has_quantifier(ff):
+            run.__dict__.setdefault('np_fact_tags', {})[ff.get_id()] = tag      # ghost: lets a contract select relevant facts
     info = (cnt, sel, rnk)
     cache[id(m.fn)] = (m.fn, info)
     return info
@@ -673,6 +693,7 @@ def getitem(it, a, idx):
         # the base indices instead of shifted ones)
         base, rlo, clo = a.win if a.win is not None else (f, 0, 0)
         r.win = (base, norm(z3.simplify(zi(rlo) + zi(s0[4]))), norm(z3.simplify(zi(clo) + zi(s1[4]))))
+        r.awin = (r.win[0], (r.win[1], r.win[2]))
     return r
 
 
@@ -704,6 +725,18 @@ def setitem(it, a, idx, v):
             same_dim(it, v.shape[0], cnt)
         mf = idx.fn
         a.fn = lambda j: z3.If(mf(j), val(rnk(j)), old(j))
+        if getattr(it.run, 'np_name_writes', False) and conc(n) is None and not it.pure:
+            # proof engineering: name the new content (a fresh function with a defining axiom, instantiated on demand) so that
+            # repeated masked updates do not nest their terms
+            run = it.run
+            F, new = fresh_fn(run, 'written', 1, SORTS[dt]), a.fn
+            j = z3.Int('j!nw%d' % next(_uid))
+            ax = z3.ForAll([j], F(j) == new(j), patterns=[F(j)])
+            run.axiom(ax)
+            named = run.__dict__.setdefault('np_named', [])
+            named.append((F, ax))
+            run.__dict__.setdefault('np_fact_tags', {})[ax.get_id()] = 'name%d' % len(named)
+            a.fn = lambda j: F(j)
     elif isinstance(idx, NDArray) and idx.dtype == 'int':
         if idx.perm is None or not implied(it, zi(idx.perm[2]) == zi(n)):
             raise Unsupported('scatter through an integer array that is not (a slice of) an argsort permutation of this axis')
@@ -724,7 +757,7 @@ def setitem(it, a, idx, v):
         pos = _index(it, idx, n)
         a.fn = lambda j: z3.If(j == pos, sv, old(j))
     a.version += 1
-    a.perm = a.win = a.origin = None
+    a.perm = a.win = a.origin = a.awin = None
     return True
 
 
@@ -965,7 +998,11 @@ def call_vmapped(it, vm, args, kw):
     axes = vm.in_axes if isinstance(vm.in_axes, (tuple, list)) else (vm.in_axes,) * len(args)
     if len(axes) != len(args):
         raise PyRaise(it.make_exc('ValueError', ['vmap in_axes does not match the arguments']))
-    J = it.run.fresh('vj', z3.IntSort())
+    J = it.run.fresh('vj', z3.IntSort())      # ranges over BASE row indices when the (single) mapped argument is a row window
+    mapped = [a for a, ax in zip(args, axes) if ax is not None]
+    off = 0
+    if len(mapped) == 1 and isinstance(mapped[0], NDArray) and mapped[0].rank == 2 and mapped[0].win is not None:
+        off = mapped[0].win[1]
     n, inner = None, []
     for a, ax in zip(args, axes):
         if ax is None:
@@ -977,7 +1014,15 @@ def call_vmapped(it, vm, args, kw):
             n = a.shape[0]
         else:
             same_dim(it, n, a.shape[0])
-        inner.append(a.row(J) if a.rank == 2 else a.at(J))
+        if conc(off) != 0:
+            base, rlo, clo = a.win
+            cz = zi(clo)
+            rr = NDArray((a.shape[1],), a.dtype, (lambda k, base=base, cz=cz: base(J, z3.simplify(k + cz))))
+            root, rmap, cofs = a.origin if a.origin is not None else (a.fn, (lambda t: t), 0)
+            rr.rowof = (root, z3.simplify(zi(rmap(z3.simplify(J - zi(rlo))))), cofs)
+            inner.append(rr)
+        else:
+            inner.append(a.row(J) if a.rank == 2 else a.at(J))
     if n is None:
         raise PyRaise(it.make_exc('ValueError', ['vmap must have at least one non-None value in in_axes']))
     it.pure += 1
@@ -985,19 +1030,30 @@ def call_vmapped(it, vm, args, kw):
         v = it.call(vm.f, inner, {})
     finally:
         it.pure -= 1
-    return _lift_over(J, n, v)
+    return _lift_over(J, n, v, off)
 
 
-def _lift_over(J, n, v):
-    """value computed at a symbolic index J -> array over the leading axis of extent n."""
+def _lift_over(J, n, v, off=0):
+    """value computed at a symbolic (base) index J -> array over the leading axis of extent n; local index j <-> base j + off"""
+    oz = zi(off)
+    shift = (lambda j: j) if conc(off) == 0 else (lambda j: z3.simplify(j + oz))
     if isinstance(v, NDArray):
         if v.rank != 1:
             raise Unsupported('mapped function returning a rank-%d array' % v.rank)
         g = v.fn
-        return NDArray((n, v.shape[0]), v.dtype, lambda j, a: z3.substitute(g(a), (J, j)))
+        r = NDArray((n, v.shape[0]), v.dtype, lambda j, a: z3.substitute(g(a), (J, shift(j))))
+        if v.awin is not None:
+            Gv, offs = v.awin
+            r.awin = ((lambda jb, ab: z3.substitute(Gv(ab), (J, jb))), (off, offs[0]))
+        elif conc(off) != 0:
+            r.awin = ((lambda jb, a: z3.substitute(g(a), (J, jb))), (off, 0))
+        return r
     t = E.to_z3(v)
     dt = dtype_of_scalar(t)
-    return NDArray((n,), dt, lambda j: z3.substitute(t, (J, j)))
+    r = NDArray((n,), dt, lambda j: z3.substitute(t, (J, shift(j))))
+    if conc(off) != 0:
+        r.awin = ((lambda jb: z3.substitute(t, (J, jb))), (off,))
+    return r
 
 
 EXTERNAL['functools.partial'] = Builtin('functools.partial', _partial)
@@ -1164,7 +1220,7 @@ def _fresh_like(it, v, name):
         f = fresh_fn(it.run, name, v.rank, SORTS[v.dtype])
         v.fn = lambda *i: f(*i)
         v.version += 1
-        v.perm = v.win = v.origin = None
+        v.perm = v.win = v.origin = v.awin = None
         if v.kind == 'list':
             n = it.run.fresh(name + '_n', z3.IntSort())
             it.run.assume(n >= 0)
@@ -1176,7 +1232,7 @@ def _fresh_like(it, v, name):
 def _snapshot(v):
     if isinstance(v, NDArray):
         r = NDArray(v.shape, v.dtype, v.fn, v.kind)
-        r.perm, r.win, r.origin = v.perm, v.win, v.origin
+        r.perm, r.win, r.origin, r.awin = v.perm, v.win, v.origin, v.awin
         return r
     return _orig_snapshot(v)
 
